@@ -4,7 +4,7 @@
 
 pub use serde_json::{json, Map, Value};
 pub use std::collections::HashMap;
-pub use vnet::{new_wire, Report, Rng, Rx, VSocket, WireRef};
+pub use vnet::{new_wire, warm_up, with_history, Report, Rng, Rx, VSocket, WireRef};
 pub use zlink_core::Connection;
 
 /// An IDL type as the generator saw it (spellings exactly as in the IDL).
